@@ -1,4 +1,410 @@
-import CV.Model.Core.Machine
+import CV.Proofs.CoreQueue
+/-
+C02 — dispatch order.
+
+  "Events queued before a flush pass are dispatched in ascending priority value and, for
+   equal priority, in the order they were fired; an event fired from a handler is never
+   dispatched before events that were already queued when the current pass began, and fire()
+   never runs a handler re-entrantly.  For each event, handlers with different priorities run
+   in descending priority order, and once a handler calls stop() on the event no handler of
+   lower priority runs for it."
+
+Part 1 (queue layer) is about `CV.Core.EQ` (CV/Model/Core/Queue.lean), the very functions
+`fireRaw` / `flush` / `dispatchLoop` of the machine call, under the op language of
+CV/Model/Core/QueueSpec.lean (`app` = `EQ.append`, `flushBegin` = `EQ.begin`, `pop` =
+`EQ.pop`).  Everything is universally quantified: any queue satisfying the reachability
+invariant `QInv`, any `Int` priorities, any interleaving of ops, any choice function `pick`.
+`EQ.drainFrom` is not part of the op language: it merges items stamped by two counters, can
+create equal `(prio, seq)` keys, and is C07's business.
+
+Part 2 (handler order) is about `CV.Core.chooseNext` / `chooseIter`
+(CV/Model/Core/Choose.lean), the restatement of the `group` / `h` / `rest` lines of
+`handlerLoop`, for any priority function, any hints, any handler list that is sorted
+descending — which `mergeSort` with `≥` (the model of `sorted(..., reverse=True)` in
+`dispatcher`) guarantees (`sorted_of_mergeSort`).
+-/
 namespace CV.C02
-theorem placeholder : True := trivial
+open CV.Core
+
+/-! ## 1. the invariant -/
+
+theorem qinv_init : QInv {} := qinv_empty
+
+theorem qinv_step {q : EQ} (h : QInv q) (op : QOp) : QInv (op.apply q).1 :=
+  CV.Core.qinv_step h op
+
+theorem qinv_run {q : EQ} (h : QInv q) (ops : List QOp) : QInv (runOps q ops).1 :=
+  CV.Core.qinv_run ops h
+
+/-- every queue reachable from the empty one satisfies the invariant -/
+theorem qinv_reachable (ops : List QOp) : QInv (runOps {} ops).1 :=
+  CV.Core.qinv_run ops qinv_empty
+
+/-- `_flush_batch == 0` exactly when the heap is empty -/
+theorem batch_zero_iff_heap_empty {q : EQ} (h : QInv q) : q.batch = 0 ↔ q.heap = [] := by
+  rw [h.batch_eq]
+  exact List.length_eq_zero_iff
+
+/-- `fire()` at the queue layer: nothing is dispatched, the heap and the batch counter are
+    untouched, the deque gains exactly the new item at its end. -/
+theorem fire_inert (q : EQ) (ev : Nat) (prio : Int) :
+    ((QOp.app ev prio).apply q).2 = none ∧
+    ((QOp.app ev prio).apply q).1.heap = q.heap ∧
+    ((QOp.app ev prio).apply q).1.batch = q.batch ∧
+    ((QOp.app ev prio).apply q).1.queue = q.queue ++ [⟨prio, q.counter, ev⟩] :=
+  ⟨rfl, rfl, rfl, rfl⟩
+
+/-! ## 2. one pop -/
+
+/-- The popped item is a minimum of the heap by `(prio, seq)`; the heap loses exactly it, the
+    batch counter is decremented, the deque is untouched.  (Holds for every queue; `QInv` is
+    not even needed.) -/
+theorem pop_is_min {q q' : EQ} {pick : List QItem → Option QItem} {it : QItem}
+    (hp : q.pop pick = some (it, q')) :
+    (∀ x ∈ q.heap, it.le x = true) ∧ it ∈ q.heap ∧ q'.heap = q.heap.erase it ∧
+      q'.batch + 1 = q.batch ∧ q'.queue = q.queue ∧ q'.counter = q.counter := by
+  obtain ⟨hb, hit, rfl⟩ := pop_spec hp
+  refine ⟨minCands_le hit, (mem_minCands hit).1, rfl, ?_, rfl, rfl⟩
+  simp only; omega
+
+/-- under `QInv` sequence numbers are unique, so the choice function is irrelevant:
+    `heappop` is deterministic -/
+theorem pop_pick_irrelevant {q : EQ} (h : QInv q) (pick₁ pick₂ : List QItem → Option QItem) :
+    q.pop pick₁ = q.pop pick₂ := by
+  by_cases hb : q.batch = 0
+  · rw [pop_none_of_batch_zero pick₁ hb, pop_none_of_batch_zero pick₂ hb]
+  · have hh : q.heap ≠ [] := fun e => hb ((batch_zero_iff_heap_empty h).mpr e)
+    obtain ⟨i₁, q₁, h₁⟩ := pop_isSome pick₁ hb hh
+    obtain ⟨i₂, q₂, h₂⟩ := pop_isSome pick₂ hb hh
+    obtain ⟨_, hc₁, e₁⟩ := pop_spec h₁
+    obtain ⟨_, hc₂, e₂⟩ := pop_spec h₂
+    have hi : i₁ = i₂ := by
+      refine eq_of_seq_eq h.heap_seq_ne (mem_minCands hc₁).1 (mem_minCands hc₂).1 ?_
+      exact (QItem.le_antisymm_key (minCands_le hc₁ _ (mem_minCands hc₂).1)
+        (minCands_le hc₂ _ (mem_minCands hc₁).1)).2
+    rw [h₁, h₂, e₁, e₂, hi]
+
+/-- a pop never fails while a batch is in progress (the heap cannot be empty then) -/
+theorem pop_succeeds {q : EQ} (h : QInv q) (hb : q.batch ≠ 0)
+    (pick : List QItem → Option QItem) : ∃ it q', q.pop pick = some (it, q') :=
+  pop_isSome pick hb (fun e => hb ((batch_zero_iff_heap_empty h).mpr e))
+
+/-! ## 3. one pass: priority order, FIFO among equals -/
+
+/-- `flushBegin` followed by exactly `|queue|` pops (any picks) dispatches a permutation of
+    the snapshot, sorted by `(prio, seq)`, and ends the batch. -/
+theorem pass_sorted {q : EQ} (h : QInv q) (hb : q.batch = 0)
+    (picks : List (List QItem → Option QItem)) (hn : picks.length = q.queue.length) :
+    (runOps q (.flushBegin :: picks.map .pop)).2.Perm q.queue ∧
+    (runOps q (.flushBegin :: picks.map .pop)).2.Pairwise (fun a b => a.le b = true) ∧
+    (runOps q (.flushBegin :: picks.map .pop)).1.batch = 0 ∧
+    (runOps q (.flushBegin :: picks.map .pop)).1.heap = [] ∧
+    (runOps q (.flushBegin :: picks.map .pop)).1.queue = [] := by
+  have := pass_full h hb (picks.map .pop) (hn ▸ midPass_pops picks)
+  rw [appItems_pops] at this
+  exact ⟨this.1, this.2.1, this.2.2.2.1, this.2.2.1, this.2.2.2.2⟩
+
+/-- the dispatched list IS the `(prio, seq)`-sort of the snapshot -/
+theorem pass_order_spec {q : EQ} (h : QInv q) (hb : q.batch = 0)
+    (picks : List (List QItem → Option QItem)) (hn : picks.length = q.queue.length) :
+    (runOps q (.flushBegin :: picks.map .pop)).2 = q.queue.mergeSort (fun a b => a.le b) := by
+  have := pass_sorted h hb picks hn
+  exact sorted_eq_mergeSort this.1 h.queue_seq_ne this.2.1
+
+/-- ascending priority value: if `a` is dispatched before `b` then `a.prio ≤ b.prio` -/
+theorem ascending_priority {q : EQ} (h : QInv q) (hb : q.batch = 0)
+    (picks : List (List QItem → Option QItem)) (hn : picks.length = q.queue.length)
+    {a b : QItem} (hab : [a, b].Sublist (runOps q (.flushBegin :: picks.map .pop)).2) :
+    a.prio ≤ b.prio := by
+  have := ((pass_sorted h hb picks hn).2.1.sublist hab)
+  simp only [List.pairwise_cons, List.mem_singleton, forall_eq] at this
+  exact QItem.prio_le_of_le this.1
+
+/-- lower priority value first, wherever the two were fired -/
+theorem lower_priority_first {q : EQ} (h : QInv q) (hb : q.batch = 0)
+    (picks : List (List QItem → Option QItem)) (hn : picks.length = q.queue.length)
+    {a b : QItem} (ha : a ∈ q.queue) (hbq : b ∈ q.queue) (hlt : a.prio < b.prio) :
+    [a, b].Sublist (runOps q (.flushBegin :: picks.map .pop)).2 := by
+  have hs := pass_sorted h hb picks hn
+  have hne : a ≠ b := fun e => by rw [e] at hlt; omega
+  rcases sublist_pair_of_mem (hs.1.symm.subset ha) (hs.1.symm.subset hbq) hne with h1 | h2
+  · exact h1
+  · have := hs.2.1.sublist h2
+    simp only [List.pairwise_cons, List.mem_singleton, forall_eq] at this
+    have := QItem.prio_le_of_le this.1
+    omega
+
+/-- FIFO among equal priorities: `a` fired before `b` (earlier in the deque), same priority
+    ⇒ `a` dispatched before `b`.  (The dispatched list has no duplicates, so "`[a, b]` is a
+    sublist" means "`a` strictly before `b`".) -/
+theorem fifo_equal {q : EQ} (h : QInv q) (hb : q.batch = 0)
+    (picks : List (List QItem → Option QItem)) (hn : picks.length = q.queue.length)
+    {a b : QItem} (hab : [a, b].Sublist q.queue) (hp : a.prio = b.prio) :
+    [a, b].Sublist (runOps q (.flushBegin :: picks.map .pop)).2 ∧
+    (runOps q (.flushBegin :: picks.map .pop)).2.Nodup := by
+  have hs := pass_sorted h hb picks hn
+  have hseq : a.seq < b.seq := by
+    have := h.queue_inc.sublist hab
+    simp only [List.pairwise_cons, List.mem_singleton, forall_eq] at this
+    exact this.1
+  have ha : a ∈ q.queue := hab.subset (by simp)
+  have hbq : b ∈ q.queue := hab.subset (by simp)
+  have hne : a ≠ b := fun e => by rw [e] at hseq; omega
+  refine ⟨?_, hs.1.nodup_iff.mpr (nodup_of_seq_ne h.queue_seq_ne)⟩
+  rcases sublist_pair_of_mem (hs.1.symm.subset ha) (hs.1.symm.subset hbq) hne with h1 | h2
+  · exact h1
+  · have := hs.2.1.sublist h2
+    simp only [List.pairwise_cons, List.mem_singleton, forall_eq] at this
+    have hf := QItem.not_le_of_seq_lt hp hseq
+    rw [this.1] at hf
+    exact absurd hf (by simp)
+
+/-! ## 4. events fired during a pass do not overtake -/
+
+/-- General form: during the pass, appends, pops (any picks) and nested `flushBegin`s (while
+    the batch is in progress: `midPass`) may interleave arbitrarily.  The pass dispatches
+    exactly the sorted snapshot; every appended item is still in the deque (not the heap)
+    when the pass ends, in append order, with its sequence number stamped from the counter. -/
+theorem no_overtake_nested {q : EQ} (h : QInv q) (hb : q.batch = 0) (ops : List QOp)
+    (hm : midPass q.queue.length ops = true) :
+    (runOps q (.flushBegin :: ops)).2 = q.queue.mergeSort (fun a b => a.le b) ∧
+    (runOps q (.flushBegin :: ops)).1.queue = appItems q.counter ops ∧
+    (runOps q (.flushBegin :: ops)).1.heap = [] ∧
+    (runOps q (.flushBegin :: ops)).1.batch = 0 ∧
+    (∀ x ∈ appItems q.counter ops, x ∉ (runOps q (.flushBegin :: ops)).2) := by
+  have hf := pass_full h hb ops hm
+  refine ⟨sorted_eq_mergeSort hf.1 h.queue_seq_ne hf.2.1, hf.2.2.2.2, hf.2.2.1, hf.2.2.2.1, ?_⟩
+  intro x hx hx'
+  have h1 := appItems_seq_ge ops q.counter x hx
+  have h2 := h.seq_lt x (List.mem_append_right _ (hf.1.subset hx'))
+  omega
+
+/-- The shape asked for: `flushBegin ::` a mix of `app` and `pop` ops containing exactly
+    `n = |queue|` pops.  The dispatched items are the same list as without the appends. -/
+theorem no_overtake {q : EQ} (h : QInv q) (hb : q.batch = 0) (ops : List QOp)
+    (hnf : ∀ o ∈ ops, o.isFlush = false) (hn : ops.countP QOp.isPop = q.queue.length) :
+    (runOps q (.flushBegin :: ops)).2 = q.queue.mergeSort (fun a b => a.le b) ∧
+    (runOps q (.flushBegin :: ops)).1.queue = appItems q.counter ops ∧
+    (runOps q (.flushBegin :: ops)).1.heap = [] ∧
+    (runOps q (.flushBegin :: ops)).1.batch = 0 ∧
+    (∀ x ∈ appItems q.counter ops, x ∉ (runOps q (.flushBegin :: ops)).2) :=
+  no_overtake_nested h hb ops (midPass_of_noFlush ops _ hnf hn)
+
+/-- ... and the events fired during pass k are exactly what pass k+1 dispatches. -/
+theorem fired_during_pass_dispatched_next {q : EQ} (h : QInv q) (hb : q.batch = 0)
+    (ops : List QOp) (hm : midPass q.queue.length ops = true)
+    (picks : List (List QItem → Option QItem))
+    (hn : picks.length = (appItems q.counter ops).length) :
+    (runOps (runOps q (.flushBegin :: ops)).1 (.flushBegin :: picks.map .pop)).2
+      = (appItems q.counter ops).mergeSort (fun a b => a.le b) := by
+  have h1 := no_overtake_nested h hb ops hm
+  have hi := qinv_run h (.flushBegin :: ops)
+  have := pass_order_spec hi h1.2.2.2.1 picks (by rw [h1.2.1]; exact hn)
+  rw [this, h1.2.1]
+
+/-! ## 5. nested flush -/
+
+/-- a `flushBegin` while a batch is in progress is the identity: a nested `flush()` from a
+    handler continues the current pass and never starts a new one early -/
+theorem nested_flush_continues {q : EQ} (hb : q.batch ≠ 0) :
+    (QOp.flushBegin.apply q) = (q, none) := by
+  simp [QOp.apply, begin_of_batch_ne hb]
+
+/-- conversely, with no batch in progress `flushBegin` snapshots exactly the deque -/
+theorem flush_begin_snapshots {q : EQ} (h : QInv q) (hb : q.batch = 0) :
+    (QOp.flushBegin.apply q).1 = { q with batch := q.queue.length, heap := q.queue, queue := [] } := by
+  simp [QOp.apply, begin_of_batch_zero h hb]
+
+/-- Decrement-FIRST matters.  The mutant that pops first and decrements after the dispatcher
+    returns (`popLate` … `decLate`) reaches, through a nested flush in the last handler of a
+    batch, a state with `batch ≠ 0` and an empty heap — Python's `heappop` would raise
+    IndexError there; `QInv` (a) is broken. -/
+def popLate (q : EQ) : EQ := { q with heap := q.heap.erase ((minItem q.heap).getD ⟨0, 0, 0⟩) }
+def decLate (q : EQ) : EQ := { q with batch := q.batch - 1 }
+
+theorem decrement_after_witness :
+    let q0 : EQ := (EQ.append {} 7 0).begin     -- one event queued, pass started
+    let q1 := popLate q0                         -- mutant: popped, not yet decremented
+    let q2 := q1.begin                           -- nested flush() from the handler
+    q2.batch ≠ 0 ∧ q2.heap = [] ∧ ¬ QInv q2 := by
+  refine ⟨by decide, by decide, ?_⟩
+  intro h
+  exact absurd h.batch_eq (by decide)
+
+/-! ## 6. handler order -/
+
+/-- the list `dispatcher` builds with `mergeSort (prio a ≥ prio b)` is sorted descending -/
+theorem sorted_of_mergeSort (prioOf : Nat → Int) (l : List Nat) :
+    (l.mergeSort (fun a b => decide (prioOf a ≥ prioOf b))).Pairwise
+      (fun a b => prioOf a ≥ prioOf b) :=
+  desc_of_mergeSort prioOf l
+
+/-- (a) the chosen handler has the maximal priority of the remaining handlers -/
+theorem choose_max {prioOf : Nat → Int} {hint : Option Nat} {hs rest : List Nat} {h : Nat}
+    (hd : hs.Pairwise (fun a b => prioOf a ≥ prioOf b))
+    (hc : chooseNext prioOf hint hs = some (h, rest)) :
+    h ∈ hs ∧ ∀ x ∈ hs, prioOf h ≥ prioOf x :=
+  ⟨(chooseNext_spec hc).1, chooseNext_max hd hc⟩
+
+/-- (b) the rest is still sorted descending and is `hs` minus the chosen handler -/
+theorem choose_rest {prioOf : Nat → Int} {hint : Option Nat} {hs rest : List Nat} {h : Nat}
+    (hd : hs.Pairwise (fun a b => prioOf a ≥ prioOf b))
+    (hc : chooseNext prioOf hint hs = some (h, rest)) :
+    rest.Pairwise (fun a b => prioOf a ≥ prioOf b) ∧ rest = hs.erase h ∧ hs.Perm (h :: rest) :=
+  ⟨(chooseNext_rest hd hc).1, (chooseNext_spec hc).2.1, (chooseNext_rest hd hc).2.1⟩
+
+/-- iterating the choice to the end, for ANY hints: every handler runs exactly once and the
+    priorities of the handlers run are non-increasing -/
+theorem handlers_desc (prioOf : Nat → Int) (hints : Nat → Option Nat) {hs : List Nat}
+    (hd : hs.Pairwise (fun a b => prioOf a ≥ prioOf b)) :
+    (chooseIter prioOf hs.length hints hs).Perm hs ∧
+    (chooseIter prioOf hs.length hints hs).Pairwise (fun a b => prioOf a ≥ prioOf b) :=
+  ⟨chooseIter_perm prioOf _ hints hs hd (Nat.le_refl _), (chooseIter_desc prioOf _ hints hs hd).1⟩
+
+/-- `stop()`: the loop is cut after the `k`-th choice (0-based), `s` being that handler.  What
+    ran is the first `k+1` choices of the full iteration; no handler with a priority lower
+    than `s`'s has run (before it — and trivially none runs after). -/
+theorem stop_cuts (prioOf : Nat → Int) (hints : Nat → Option Nat) {hs : List Nat}
+    (hd : hs.Pairwise (fun a b => prioOf a ≥ prioOf b)) (k : Nat) (hk : k < hs.length) {s : Nat}
+    (hs' : (chooseIter prioOf (k + 1) hints hs).getLast? = some s) :
+    chooseIter prioOf (k + 1) hints hs = (chooseIter prioOf hs.length hints hs).take (k + 1) ∧
+    (chooseIter prioOf (k + 1) hints hs).length = k + 1 ∧
+    ∀ h ∈ hs, prioOf h < prioOf s → h ∉ chooseIter prioOf (k + 1) hints hs := by
+  refine ⟨chooseIter_take prioOf _ _ hints hs (by omega), ?_, ?_⟩
+  · rw [chooseIter_length]; omega
+  · intro h _ hlt hmem
+    have := desc_last_min (chooseIter_desc prioOf (k + 1) hints hs hd).1 hs' h hmem
+    omega
+
+/-- ... and every handler with a priority higher than the stopper's HAS run -/
+theorem stop_cuts_complete (prioOf : Nat → Int) (hints : Nat → Option Nat) {hs : List Nat}
+    (hd : hs.Pairwise (fun a b => prioOf a ≥ prioOf b)) (k : Nat) (hk : k < hs.length) {s : Nat}
+    (hs' : (chooseIter prioOf (k + 1) hints hs).getLast? = some s) :
+    ∀ h ∈ hs, prioOf h > prioOf s → h ∈ chooseIter prioOf (k + 1) hints hs := by
+  intro h hh hgt
+  have hfull := handlers_desc prioOf hints hd
+  have htk := chooseIter_take prioOf (k + 1) hs.length hints hs (by omega)
+  have hsm : s ∈ (chooseIter prioOf hs.length hints hs).take (k + 1) := by
+    rw [← htk]; exact List.mem_of_getLast? hs'
+  have hmem : h ∈ (chooseIter prioOf hs.length hints hs).take (k + 1) ++
+      (chooseIter prioOf hs.length hints hs).drop (k + 1) := by
+    rw [List.take_append_drop]; exact hfull.1.symm.subset hh
+  rw [htk]
+  rcases List.mem_append.mp hmem with h1 | h2
+  · exact h1
+  · have hp := hfull.2
+    rw [← List.take_append_drop (k + 1) (chooseIter prioOf hs.length hints hs)] at hp
+    have := (List.pairwise_append.mp hp).2.2 s hsm h h2
+    omega
+
+/-- The fallback handler `dispatcher` appends AFTER sorting (`sorted ++ [h]`, for
+    `generate_events`: priority -100) keeps the list sorted iff no collected handler has a
+    lower priority than the fallback. -/
+theorem sorted_append_fallback {prioOf : Nat → Int} {hs : List Nat} {f : Nat}
+    (hd : hs.Pairwise (fun a b => prioOf a ≥ prioOf b)) :
+    (hs ++ [f]).Pairwise (fun a b => prioOf a ≥ prioOf b) ↔ ∀ h ∈ hs, prioOf h ≥ prioOf f := by
+  rw [List.pairwise_append]
+  constructor
+  · intro h x hx; exact h.2.2 x hx f (List.mem_singleton.mpr rfl)
+  · intro h
+    refine ⟨hd, by simp, ?_⟩
+    intro a ha b hb
+    rw [List.mem_singleton.mp hb]; exact h a ha
+
+/-! ## 7. non-vacuity -/
+
+/-- a reachable queue with mixed priorities (negative, equal, positive), left by an earlier
+    pass that was itself interleaved with appends: seqs 3..8 in the deque, counter 9 -/
+def exQ : EQ :=
+  (runOps {} [.app 10 5, .app 11 (-3), .app 12 5, .flushBegin, .pop (fun _ => none),
+    .app 13 2, .app 14 (-1), .pop (fun c => c.head?), .flushBegin, .app 15 2, .pop (fun _ => none),
+    .app 16 (-1), .app 17 0, .app 18 2]).1
+
+theorem exQ_inv : QInv exQ := qinv_reachable _
+
+example : exQ.batch = 0 ∧ exQ.heap = [] ∧ exQ.counter = 9 ∧
+    exQ.queue = [⟨2, 3, 13⟩, ⟨-1, 4, 14⟩, ⟨2, 5, 15⟩, ⟨-1, 6, 16⟩, ⟨0, 7, 17⟩, ⟨2, 8, 18⟩] := by
+  decide
+
+def exPicks : List (List QItem → Option QItem) :=
+  [fun _ => none, fun c => c.head?, fun c => c.getLast?, fun _ => some ⟨0, 0, 0⟩, fun _ => none,
+   fun c => c.head?]
+
+/-- `pop_is_min`, `pop_succeeds`: a pop that succeeds, on a heap with mixed priorities -/
+example : ∃ it q', exQ.begin.pop (fun _ => none) = some (it, q') ∧ it = ⟨-1, 4, 14⟩ :=
+  ⟨_, _, rfl, rfl⟩
+example : QInv exQ.begin ∧ exQ.begin.batch ≠ 0 := ⟨qinv_begin exQ_inv, by decide⟩
+
+/-- `pass_sorted` / `pass_order_spec` / `ascending_priority` / `lower_priority_first`:
+    hypotheses hold for `exQ`, `exPicks`, and the pass dispatches by priority, FIFO among equals -/
+example : QInv exQ ∧ exQ.batch = 0 ∧ exPicks.length = exQ.queue.length ∧
+    (runOps exQ (.flushBegin :: exPicks.map .pop)).2 =
+      [⟨-1, 4, 14⟩, ⟨-1, 6, 16⟩, ⟨0, 7, 17⟩, ⟨2, 3, 13⟩, ⟨2, 5, 15⟩, ⟨2, 8, 18⟩] :=
+  ⟨exQ_inv, by decide, by decide, by decide⟩
+
+/-- `fifo_equal`: two items of equal priority, in deque order -/
+example : [(⟨2, 3, 13⟩ : QItem), ⟨2, 8, 18⟩].Sublist exQ.queue ∧
+    (⟨2, 3, 13⟩ : QItem).prio = (⟨2, 8, 18⟩ : QItem).prio := by decide
+example : (⟨-1, 6, 16⟩ : QItem) ∈ exQ.queue ∧ (⟨2, 3, 13⟩ : QItem) ∈ exQ.queue ∧
+    (⟨-1, 6, 16⟩ : QItem).prio < (⟨2, 3, 13⟩ : QItem).prio := by decide
+
+/-- `no_overtake`: appends (incl. one with a priority lower than everything queued) between the
+    pops; `no_overtake_nested`: additionally nested flushes mid-pass -/
+def exMix : List QOp :=
+  [.pop (fun _ => none), .app 20 (-7), .pop (fun _ => none), .pop (fun _ => none), .app 21 2,
+   .app 22 (-7), .pop (fun _ => none), .pop (fun _ => none), .pop (fun _ => none), .app 23 0]
+def exMixNested : List QOp :=
+  [.pop (fun _ => none), .app 20 (-7), .flushBegin, .pop (fun _ => none), .pop (fun _ => none),
+   .app 21 2, .flushBegin, .app 22 (-7), .pop (fun _ => none), .pop (fun _ => none), .flushBegin,
+   .pop (fun _ => none), .app 23 0]
+
+example : (∀ o ∈ exMix, o.isFlush = false) ∧ exMix.countP QOp.isPop = exQ.queue.length ∧
+    (runOps exQ (.flushBegin :: exMix)).2 =
+      [⟨-1, 4, 14⟩, ⟨-1, 6, 16⟩, ⟨0, 7, 17⟩, ⟨2, 3, 13⟩, ⟨2, 5, 15⟩, ⟨2, 8, 18⟩] ∧
+    (runOps exQ (.flushBegin :: exMix)).1.queue =
+      [⟨-7, 9, 20⟩, ⟨2, 10, 21⟩, ⟨-7, 11, 22⟩, ⟨0, 12, 23⟩] := by
+  refine ⟨?_, by decide, by decide, by decide⟩
+  intro o ho
+  simp only [exMix, List.mem_cons, List.not_mem_nil, or_false] at ho
+  rcases ho with rfl | rfl | rfl | rfl | rfl | rfl | rfl | rfl | rfl | rfl <;> rfl
+
+example : midPass exQ.queue.length exMixNested = true ∧
+    (runOps exQ (.flushBegin :: exMixNested)).2 = (runOps exQ (.flushBegin :: exMix)).2 ∧
+    (runOps exQ (.flushBegin :: exMixNested)).1.queue = (runOps exQ (.flushBegin :: exMix)).1.queue := by
+  decide
+
+/-- `fired_during_pass_dispatched_next` -/
+example : (runOps (runOps exQ (.flushBegin :: exMix)).1
+      (.flushBegin :: (List.replicate 4 (fun _ => none)).map .pop)).2 =
+    [⟨-7, 9, 20⟩, ⟨-7, 11, 22⟩, ⟨0, 12, 23⟩, ⟨2, 10, 21⟩] := by decide
+
+/-- a nested flush during the LAST event of a batch (batch = 0 again) is outside `midPass`:
+    it legitimately starts the next pass -/
+example : midPass 1 [.pop (fun _ => none), .flushBegin] = false := by decide
+
+/-- `nested_flush_continues`: a state with a batch in progress -/
+example : exQ.begin.batch ≠ 0 := by decide
+
+/-- handler order: priorities 1, -2, 1, 0, 1, -2 for handlers 0..5 -/
+def exPrio : Nat → Int
+  | 0 => 1 | 1 => -2 | 2 => 1 | 3 => 0 | 4 => 1 | _ => -2
+def exHs : List Nat := [0, 2, 4, 3, 1, 5]
+def exHints : Nat → Option Nat
+  | 0 => some 4      -- in the tie group: honoured
+  | 1 => some 3      -- not in the tie group {0, 2}: head is taken
+  | 2 => some 2
+  | 4 => some 5
+  | _ => none
+
+example : exHs.Pairwise (fun a b => exPrio a ≥ exPrio b) := by decide
+example : chooseNext exPrio (some 4) exHs = some (4, [0, 2, 3, 1, 5]) := by decide
+example : chooseIter exPrio exHs.length exHints exHs = [4, 0, 2, 3, 5, 1] := by decide
+/-- `stop_cuts`, `stop_cuts_complete`: handler 3 (priority 0) stops the event at step k = 3 -/
+example : (3 : Nat) < exHs.length ∧ (chooseIter exPrio (3 + 1) exHints exHs).getLast? = some 3 ∧
+    chooseIter exPrio (3 + 1) exHints exHs = [4, 0, 2, 3] := by decide
+/-- `sorted_append_fallback`: with a handler below the fallback's priority the appended list
+    is NOT sorted — the fallback then runs after a lower-priority handler -/
+example : ¬ ([0, 1] ++ [2]).Pairwise (fun a b => (fun | 0 => (0:Int) | 1 => -200 | _ => -100) a ≥
+    (fun | 0 => (0:Int) | 1 => -200 | _ => -100) b) := by decide
+
 end CV.C02
